@@ -24,6 +24,9 @@ void h_infer(void) {
     __CPROVER_assume((sz == 0 || sz == 1 || sz == 2 || sz == 4 || sz == 8) && n >= 0 && n <= 3);
     g_in_minus = minus; g_in_unsigned = uns; g_in_pointer = ptr; g_in_size = (int)sz; g_in_n = n;
     g_set = 0;
+    /* the operands' own signedness: arbitrary, except that two unsigned operands give an unsigned result */
+    op1_unsigned = nondet_bool(); op2_unsigned = nondet_bool(); tok_has_vt = hasvt;
+    __CPROVER_assume(!(op1_unsigned && op2_unsigned) || (hasvt && uns));
     infer_block(minus, hasvt && uns, ptr, sz, n);
     if (minus && hasvt && uns && !ptr && sz >= 1 && sz < 8)
         __CPROVER_assert(g_set == 0, "no inferred bound is attached to an unsigned subtraction of less than 64 bits (it can wrap around)");
@@ -91,6 +94,8 @@ def build(ctx):
         (r'for \(ValueFlow::Value& value : result\)\s*\{\s*setTokenValue\(tok, std::move\(value\), settings\)\s*;\s*\}', 'for (int k = 0; k < 3; k++) if (k < result_n) g_set++;', 1, 1),
         (r'\btok->str\(\) == "-"', 'is_minus', 0, 1),
         (r'\bastIsUnsigned\(tok\)', 'tok_unsigned', 0, 1),
+        (r'\bastIsUnsigned\(tok->astOperand([12])\(\)\)', r'op\1_unsigned', 0, 2),
+        (r'\btok->valueType\(\) &&', 'tok_has_vt &&', 0, 1),
         (r'\bastIsPointer\(tok\)', 'tok_pointer', 0, 1),
         (r'\btok->valueType\(\)->getSizeOf\(settings,\s*ValueType::Accuracy::ExactOrZero,\s*ValueType::SizeOf::Pointer\)', 'tok_size', 0, 2),
         (r'\bcontinue\s*;', 'return;', 0, 1),
@@ -98,7 +103,7 @@ def build(ctx):
     if re.search(r'\btok\b|settings|std::|ValueFlow', extract.mask(t)):
         raise extract.ExtractError("K63: block not fully lowered: %r" % re.findall(r'[^\n]*(?:\btok\b|settings|std::|ValueFlow)[^\n]*', extract.mask(t))[:3])
     kb.rules_fired = n
-    text = (_common.BASE + "int g_set;   /* number of values handed to the token */\n"
+    text = (_common.BASE + "int g_set;   /* number of values handed to the token */\n_Bool op1_unsigned, op2_unsigned, tok_has_vt;   /* flags of the operands / the token, read only if the guard asks for them */\n"
             "static void infer_block(_Bool is_minus, _Bool tok_unsigned, _Bool tok_pointer, size_t tok_size, int n_results)\n{\n%s\n}\n" % extract.strip_comments(t))
     extract.residue_scan(text, ID)
     kb.ctext = text + HARNESS
